@@ -159,8 +159,17 @@ func vpH_c04_positions() {
 		p.RemainingFields = map[string]any{vpS("pk"): vpS("pv")}
 	}
 	p.Steps = Steps{cmdStep, grp, wait, input, trig, unk}
+	envMap := map[string]string{"A": "x"}
+	prefer := false
+	if which == 8 { // the pipeline's own env block, under both precedence settings, its name defined by the caller or not
+		p.Env = ordered.MapFromItems(ordered.TupleSS{Key: vpS("pek"), Value: vpS("pev")}, ordered.TupleSS{Key: "Q", Value: "q"})
+		prefer = vpBool()
+		if vpBool() {
+			envMap[vpT("pek")] = "runtime"
+		}
+	}
 
-	err := p.Interpolate(env.New(env.FromMap(map[string]string{"A": "x"})), false)
+	err := p.Interpolate(env.New(env.FromMap(envMap)), prefer)
 	vpAssert(err == nil, "interpolating a well-formed pipeline succeeds")
 	vpAssert(len(p.Steps) == 6 && p.Steps[0] == Step(cmdStep) && p.Steps[1] == Step(grp), "step list shape unchanged")
 	vpAssert(cmdStep.Command == vpT("cmd"), "command is the single-pass expansion")
@@ -242,6 +251,10 @@ func vpH_c04_positions() {
 		ull, ok := ul.([]any)
 		vpAssert(ok && len(ull) == 1 && vpAnyIs(ull[0], vpT("ui")), "unknown step nested list is the single-pass expansion")
 		vpAssert(len(p.RemainingFields) == 1 && vpAnyIs(p.RemainingFields[vpT("pk")], vpT("pv")), "top-level extras are the single-pass expansion")
+	case 8:
+		v, ok := p.Env.Get(vpT("pek"))
+		vpAssert(p.Env.Len() == 2 && ok, "env block name is the single-pass expansion, whoever wins precedence")
+		vpAssert(ok && v == vpT("pev"), "env block value is the single-pass expansion, whoever wins precedence")
 	}
 }
 
